@@ -5,7 +5,7 @@ import time
 
 from common import REPO, Rule, finish
 from hirtab import ANY, C, L, T, adt_variants, callees, candidates, lit_value, top_match
-from hirutil import find, strip, walk
+from hirutil import callee as hir_callee, find, strip, walk
 from mirutil import Body, op_local, rvalue_reads
 
 EXIT_SPEC = {"FalseOrNull": 1, "Io": 2, "Report": 3, "NoOutput": 4, "Parse": 5, "Jaq": 5}
@@ -252,10 +252,51 @@ def run(facts, tier):
     TERM = {"Cbor": (b"", b""), "Toml": (b"", b""), "Raw0": (b"\0", b"\0"), "Yaml": (b"\n", b"\n"), "Csv": (b"\n", b"\n"), "Tsv": (b"\n", b"\n"),
             "Json": (b"\n", b""), "Raw": (b"\n", b""), "Xml": (b"\n", b"")}
     if wh and fmts:
-        tm = [m for m in find(wh["body"], lambda n: n.get("k") == "Match" and n.get("src") == "Normal")
-              if all(strip(a["body"]).get("k") == "Lit" and "bytes" in strip(a["body"])["lit"] for a in m["arms"])]
+        # the table is looked for in every function of the writer module (it may live in a helper of `write`)
+        tabs = []
+        for f in facts.hir("jaq_fmts"):
+            if not f["def"].startswith("jaq_fmts::write::") or f.get("test"):
+                continue
+            for m in find(f["body"], lambda n: n.get("k") == "Match" and n.get("src") == "Normal"):
+                if "jaq_fmts::Format" in m.get("scrut_ty", "") and all(strip(a["body"]).get("k") == "Lit" and "bytes" in strip(a["body"])["lit"] for a in m["arms"]):
+                    tabs.append((f, m))
+        tm = [m for f, m in tabs]
+
+        def join_ids(fn):
+            """bindings of `fn` that hold the --join-output flag: destructured from / read off the field `join` of the writer options"""
+            ids = set()
+            for st in find(fn["body"], lambda n: n.get("k") == "Struct" and (n.get("path") or {}).get("def") == "jaq_fmts::write::Writer"):
+                for fl in st["fields"]:
+                    if fl["name"] == "join":
+                        ids |= {b_["id"] for b_ in find(fl["pat"], lambda n: n.get("k") == "Bind")}
+            for l in find(fn["body"], lambda n: n.get("k") == "Let" and n.get("init") is not None):
+                if find(l["init"], lambda n: n.get("k") == "Field" and n.get("name") == "join"):
+                    ids |= {b_["id"] for b_ in find(l["pat"], lambda n: n.get("k") == "Bind")}
+            return ids
+
+        def is_join_guard(guard):
+            """the guard of the table tests the --join-output flag"""
+            tf = tabs[0][0]
+            locs = [n["path"] for n in find(guard, lambda n: n.get("k") == "Path" and n["path"].get("id") is not None)]
+            if len(locs) != 1:
+                return False
+            gid = locs[0]["id"]
+            if tf is wh or tf["def"] == wh["def"]:
+                return gid in join_ids(wh) or bool(find(guard, lambda n: n.get("k") == "Field" and n.get("name") == "join"))
+            pids = [b_["id"] for p_ in tf["params"] for b_ in find(p_, lambda n: n.get("k") == "Bind")][:len(tf["params"])]
+            if gid not in pids:
+                return False
+            k = pids.index(gid)
+            jids = join_ids(wh)
+            for call in find(wh["body"], lambda n: n.get("k") in ("Call", "MethodCall") and (hir_callee(n) or "") == tf["def"]):
+                args = call["args"]
+                if k < len(args) and (find(args[k], lambda n: n.get("k") == "Path" and n["path"].get("id") in jids) or find(args[k], lambda n: n.get("k") == "Field" and n.get("name") == "join")):
+                    return True
+            return False
         if len(tm) != 1:
-            f3.violate("terminator/anchor", "the terminator table (match on the format yielding byte strings) was not found")
+            f3.violate("terminator/anchor", f"the terminator table (one match on the format yielding byte strings, in the writer module) was not found ({len(tm)} candidates)")
+        elif tabs[0][0]["def"] != wh["def"] and tabs[0][0]["def"] not in callees(wh["body"]):
+            f3.violate("terminator/unused", f"the terminator table lives in `{tabs[0][0]['def']}`, which the value writer does not call")
         else:
             for name, nf in fmts:
                 cs = candidates(tm[0]["arms"], C(f"jaq_fmts::Format::{name}"))
@@ -264,7 +305,7 @@ def run(facts, tier):
                     got = (lit(cs[0][0]), lit(cs[0][0]))
                 elif len(cs) == 2 and cs[0][1] == "guard" and cs[1][1] == "sure":
                     g = callees(tm[0]["arms"][cs[0][0]]["guard"])
-                    gv = find(tm[0]["arms"][cs[0][0]]["guard"], lambda n: n.get("k") == "Path" and n["path"].get("local") == "join")
+                    gv = is_join_guard(tm[0]["arms"][cs[0][0]]["guard"])
                     got = (lit(cs[1][0]), lit(cs[0][0])) if gv else None
                 else:
                     got = None
